@@ -209,6 +209,14 @@ def lean_check(prop, regenerate=True):
     if rc != 0 and res.ok:
         res.ok = False
         res.failed.append('axiom audit failed: ' + txt[-400:])
+    res.leanchecker = None
+    if os.environ.get('VERIF_TIER_ACTIVE') == 'thorough' and res.ok:
+        # thorough tier: the toolchain's independent re-checker replays every compiled module of the dependency cone
+        ok, tail, wall = leanchecker(prop)
+        res.leanchecker = {'ok': ok, 'wall_s': round(wall, 1), 'modules': len(lean_module_files(prop))}
+        if not ok:
+            res.ok = False
+            res.failed.append('leanchecker rejected a compiled module: ' + tail[-300:])
     res.wall = time.time() - t0
     return res
 
@@ -367,6 +375,8 @@ class Ctx:
                 'lean_failed': lean.failed,
                 'lean_wall_s': round(lean.wall, 2),
             })
+            if getattr(lean, 'leanchecker', None):
+                cov['leanchecker'] = lean.leanchecker
         if lean is not None and lean.discharged == 0:
             # nothing checked (build broken): the proof-level keys would be meaningless; keep the counts under other names
             cov['obligations_total'] = cov.pop('obligations')
@@ -443,7 +453,26 @@ def norm_raises(o):
     return o
 
 
-def correspond(ctx, stream, cases, impl_fn, line_fn, canon=None, nontrivial=None, batch=None):
+def tolerant_equal(a, b, rel=1e-13):
+    """deep equality of two JSON-like values in which strings that parse as rationals are compared as numbers with a relative
+    tolerance (float64 results that need more than 53 bits differ from the exact model by rounding only)"""
+    from fractions import Fraction
+    if isinstance(a, dict) and isinstance(b, dict):
+        return a.keys() == b.keys() and all(tolerant_equal(a[k], b[k], rel) for k in a)
+    if isinstance(a, (list, tuple)) and isinstance(b, (list, tuple)):
+        return len(a) == len(b) and all(tolerant_equal(x, y, rel) for x, y in zip(a, b))
+    if isinstance(a, str) and isinstance(b, str):
+        if a == b:
+            return True
+        try:
+            x, y = Fraction(a), Fraction(b)
+        except (ValueError, ZeroDivisionError):
+            return False
+        return abs(x - y) <= Fraction(rel) * max(1, abs(x), abs(y))
+    return a == b
+
+
+def correspond(ctx, stream, cases, impl_fn, line_fn, canon=None, nontrivial=None, batch=None, equal=None):
     """Run `cases` through implementation and model, record disagreements.  Returns list of
     (case, impl_out, model_out)."""
     impl_outs = [impl_call(impl_fn, c) for c in cases]
@@ -463,7 +492,8 @@ def correspond(ctx, stream, cases, impl_fn, line_fn, canon=None, nontrivial=None
         ctx.count('stream:' + stream)
         if isinstance(a, dict) and 'raises' in a:
             ctx.count('raises:' + stream)
-        if canon_json(a) != canon_json(b):
+        same = canon_json(a) == canon_json(b) or (equal is not None and equal(json.loads(canon_json(a)), json.loads(canon_json(b))))
+        if not same:
             ctx.disagreement(stream, c, io, mo)
         else:
             ctx.traces_validated += 1
